@@ -13,3 +13,4 @@ scenarios, jobs, confirm, info = e3check.make('C14', QUICK, THOROUGH,
     'The thorough tier unrolls the retry loop of nsync_mu_lock_slow_ 33 times so that the 30th wake-up is reached inside one solver query.',
     ['nsync_mu_lock', 'nsync_mu_rlock', 'nsync_mu_trylock', 'nsync_mu_rtrylock', 'nsync_mu_lock_slow_'],
     ['the bound on the number of sleeps as a function of the number of competing threads is argued, not computed', 'adversarial 30-round interleavings of real threads (outside E3\'s reach)'])
+WORKERS = 5     # each query needs 2-10 GB (cbmc + kissat): bounded parallelism keeps the machine out of swap / the OOM killer
